@@ -53,17 +53,17 @@ Definition has_var (vs : list pkgvar) (p n : string) : bool :=
 (* the operations of the footprint table (C20Model.api without its arguments) *)
 Inductive api_kind :=
 | KDecode | KDecodeSR | KInfo | KEncode | KEncodeSW | KSamples | KEncrypt | KDecrypt | KDecryptInit | KInitProtect
-| KDecryptWith | KEncryptWith | KToByteStream | KToNaluSample | KSetBoxDecoder | KRemoveBoxDecoder.
+| KDecryptWith | KEncryptWith | KToByteStream | KToNaluSample | KSetBoxDecoder | KRemoveBoxDecoder | KTouch.
 
 Definition all_kinds : list api_kind :=
   [KDecode; KDecodeSR; KInfo; KEncode; KEncodeSW; KSamples; KEncrypt; KDecrypt; KDecryptInit; KInitProtect;
-   KDecryptWith; KEncryptWith; KToByteStream; KToNaluSample; KSetBoxDecoder; KRemoveBoxDecoder].
+   KDecryptWith; KEncryptWith; KToByteStream; KToNaluSample; KSetBoxDecoder; KRemoveBoxDecoder; KTouch].
 
 Definition kind_idx (k : api_kind) : nat :=
   match k with
   | KDecode => 0 | KDecodeSR => 1 | KInfo => 2 | KEncode => 3 | KEncodeSW => 4 | KSamples => 5 | KEncrypt => 6
   | KDecrypt => 7 | KDecryptInit => 8 | KInitProtect => 9 | KDecryptWith => 10 | KEncryptWith => 11
-  | KToByteStream => 12 | KToNaluSample => 13 | KSetBoxDecoder => 14 | KRemoveBoxDecoder => 15
+  | KToByteStream => 12 | KToNaluSample => 13 | KSetBoxDecoder => 14 | KRemoveBoxDecoder => 15 | KTouch => 16
   end.
 Definition kind_eqb (a b : api_kind) : bool := Nat.eqb (kind_idx a) (kind_idx b).
 
@@ -121,3 +121,15 @@ Definition xwriter_ok (w : xwriter) : bool :=
    but the registries) not changed by any exported function at all *)
 Definition shared_ok (vs : list pkgvar) (s : shared_var) : bool :=
   vname_in (sh_var s) audited_shared && read_ok vs (sh_var s).
+
+(* ------------------------------------------------------------------ aliasing facts (C20Alias.v, generated) *)
+(* audit classes of the exported functions the extractor reports as writing bytes reachable from an argument *)
+Inductive mclass :=
+| MInPlace (k : api_kind)  (* rewrites payload bytes in place: operation k of the table, guarded by inplace_ok; on data decoded
+                              through a SliceReader from a shared input this is the recorded finding F1-F9 *)
+| MAppend (k : api_kind)   (* grows a byte field by append: operation k of the table (no payload write since ReadBytes clips
+                              the capacity), or a field that no SliceReader decoder fills *)
+| MOutBuf                  (* fills a scratch / output buffer supplied by the caller for that purpose *)
+| MNone.                   (* imprecision of the flow- and field-insensitive extractor, audited: no byte of the caller is written *)
+
+Definition spair_eqb (a b : string * string) : bool := String.eqb (fst a) (fst b) && String.eqb (snd a) (snd b).
